@@ -15,10 +15,11 @@ type typeTab struct {
 	declared map[string]bool
 	tagOf    map[string]int
 	nextTag  int
+	kindSeen map[string]bool
 }
 
 func newTypeTab(vc *VC) *typeTab {
-	return &typeTab{vc: vc, sortOf: map[string]string{}, structs: map[string]*types.Struct{}, declared: map[string]bool{}, tagOf: map[string]int{}, nextTag: 1}
+	return &typeTab{vc: vc, sortOf: map[string]string{}, structs: map[string]*types.Struct{}, declared: map[string]bool{}, tagOf: map[string]int{}, nextTag: 1, kindSeen: map[string]bool{}}
 }
 
 func isIntKind(b *types.Basic) bool {
@@ -177,29 +178,70 @@ func (tt *typeTab) fieldOff(u *types.Struct, idx int) int64 {
 }
 
 // kind is the heap a scalar type lives in.
+// kind: heaps are split by the Go type of the cell (type safety: a cell is only
+// ever accessed at its own type, up to identical underlying types), so a
+// [][]byte header cell can never alias a []byte element cell, an int64 field
+// never a byte of a byte array, and so on.
 func (tt *typeTab) kind(t types.Type) string {
-	switch tt.sort(t) {
-	case SInt:
-		return "I"
-	case SBool:
-		return "B"
-	case SPtr:
-		return "P"
-	case SSlice:
-		return "S"
-	case SStr:
-		return "T"
-	case SIface:
-		return "F"
-	case SReal:
-		return "R"
-	case SFn:
-		return "C"
+	qual := func(p *types.Package) string { return p.Name() }
+	short := func(s string) string {
+		s = sanitize(s)
+		if len(s) > 40 {
+			h := uint32(2166136261)
+			for _, c := range []byte(s) {
+				h = (h ^ uint32(c)) * 16777619
+			}
+			s = s[:32] + fmt.Sprintf("_%x", h)
+		}
+		return s
 	}
-	return "I"
+	var k string
+	switch u := t.Underlying().(type) {
+	case *types.Basic:
+		switch tt.sort(t) {
+		case SInt:
+			n := u.Name()
+			switch u.Kind() {
+			case types.Uint8:
+				n = "uint8"
+			case types.Int32, types.UntypedRune:
+				n = "int32"
+			case types.UntypedInt:
+				n = "int"
+			}
+			k = "I_" + n
+		case SBool:
+			k = "B"
+		case SStr:
+			k = "T"
+		case SReal:
+			k = "R_" + u.Name()
+		default:
+			k = "P_unsafe"
+		}
+	case *types.Pointer:
+		k = "P_" + short(types.TypeString(u.Elem(), qual))
+	case *types.Map:
+		k = "P_map_" + short(types.TypeString(u, qual))
+	case *types.Chan:
+		k = "P_chan_" + short(types.TypeString(u, qual))
+	case *types.Slice:
+		k = "S_" + short(types.TypeString(u.Elem(), qual))
+	case *types.Interface:
+		k = "F_" + short(types.TypeString(t, qual))
+	case *types.Signature:
+		k = "C"
+	default:
+		k = "I_other"
+	}
+	tt.kindSeen[k] = true
+	return k
 }
 
 func kindSort(k string) string {
+	if len(k) > 1 {
+		k = k[:1]
+	}
 	switch k {
 	case "I":
 		return SInt
@@ -222,6 +264,11 @@ func kindSort(k string) string {
 }
 
 func kindZero(k string) Term {
+	full := k
+	if len(k) > 1 {
+		k = k[:1]
+	}
+	_ = full
 	switch k {
 	case "I", "C":
 		return Term{"0", kindSort(k)}
